@@ -17,7 +17,8 @@ import (
 func TestC11(t *testing.T) {
 	rapid.Check(t, func(t *rapid.T) {
 		sch := genSchema(t, SchemaCfg{Key: 0, Merges: true, EnsureLenMerge: true, MinCols: 2, MaxCols: 6})
-		mc := NewMachine("C11", sch, column.Options{})
+		log := &recLogger{}
+		mc := NewMachine("C11", sch, column.Options{Writer: log})
 		defer mc.Close()
 		defer mc.Guard(t)
 		cfg := TxnCfg{Prop: "C11", MaxSteps: 8, Peeks: true, Rollback: true, FailInsert: true, Deletes: true, Inserts: true, Merges: true, OwnUpdates: true, Direct: true,
@@ -83,6 +84,17 @@ func TestC11(t *testing.T) {
 		})
 		mc.CheckFull(t, false)
 		mc.CheckFull(t, true)
+		// the same history as a stream follower sees it: re-used offsets must not carry stale data there either
+		replica := newCollection(sch, column.Options{})
+		defer replica.Close()
+		for _, rc := range log.Since(0) {
+			cl := rc.Clone.Clone()
+			cl.ID = rc.ID
+			if err := replica.Replay(cl); err != nil {
+				mc.fail(t, "Replay of commit #%d: %v", rc.Seq, err)
+			}
+		}
+		mc.CheckDerived(t, replica, "collection that replayed the change stream of this history", false)
 		RecordCase("C11", mc.Desc(), staleCandidate, mc.Labels()...)
 	})
 }
